@@ -284,10 +284,14 @@ def throttleLateKind : Kind where
 
 `latecancel n` / `latecall n`: trials on the real clock with one P in which a `cancel()` (or a newer debounced call)
 completes in the window between the expiry of the debounce timer and the start of the goroutine the runtime created for
-its function (see the harness).  By `Theorems/C20Late.lean: dlate_no_run_after_cancel, dlate_not_early` the debounced
-function, when its goroutine finally starts, first checks under the debouncer's lock that its timer is still the
-current one — so it never runs after `cancel()` has returned and never sooner than `wait` after the most recent call.
-The only admitted answer is `ok`. -/
+its function (see the harness).  By `Theorems/C20Late.lean: dlate_runs_ok_partial` the goroutine, when it finally
+starts, first checks under the debouncer's lock that its timer is still the current one — a cancel or a newer call that
+completed BEFORE that check sends it away.  The only admitted answer is `ok`.
+
+`gapcancel n` / `gapcall n` (hook `VerifDebounceGap`, build tag verif): the cancel() / newer call completes AFTER the
+goroutine's check and BEFORE it calls the function.  The model of the code (`dlstep`: `check` then `cancel` then `run`,
+theorem `dlate_full_false`) runs the function there, and so does the code: known finding F46
+`debounce.go-ahead-then-run-window`.  `ok` (a code that closes the window) meets the clause and is accepted. -/
 def debounceLateKind : Kind where
   σ := Unit
   init := fun _ => some ()
@@ -299,6 +303,21 @@ def debounceLateKind : Kind where
     | "latecall", [.int _] =>
       { st := st, model := some [.atom "ok"], tags := ["debounce:late-start:newer-call"], nontrivial := true
         spec := if l.res == [.atom "ok"] then none else some "debounce:never-sooner-than-wait-after-the-most-recent-call:late-start" }
+    | "gapcancel", [.int _] => gap st l [.call, .tick 5, .expire 0, .check 0, .cancel, .run 0] "debounce:not-at-all-after-cancel:go-ahead-gap"
+    | "gapcall", [.int _] => gap st l [.call, .tick 5, .expire 0, .check 0, .call, .run 0]
+        "debounce:never-sooner-than-wait-after-the-most-recent-call:go-ahead-gap"
     | _, _ => { st := st, bad := some s!"debouncelate: bad line {l.op}" }
+where
+  /-- the model of the code on the history of the trial: does the function of the FIRST call run? -/
+  gap (st : Unit) (l : Line) (h : List Model.C20.DLEv) (clause : String) : Step Unit :=
+    let runs := (Model.C20.dlrun true 5 h).runs.any (fun r => r.idx == 0)
+    match l.res with
+    | [.atom "ok"] => { st := st, tags := ["debounce:go-ahead-gap:closed"], nontrivial := true }
+    | [.atom "ran-after-go-ahead", .int _] =>
+      { st := st, tags := ["debounce:go-ahead-gap"], nontrivial := true
+        model := some (if runs then l.res else [.atom "ok"])
+        known := if runs then some "debounce.go-ahead-then-run-window" else none
+        spec := if runs then none else some clause }
+    | _ => { st := st, spec := some clause }
 
 end GoguVerif.Kinds.C20
